@@ -25,10 +25,11 @@ def main():
     tests_ok = "FAILED" not in out and "panicked" not in out and out.count("test result: ok") >= 3
     meta["confirmed"]["tests_pass_with_change"] = tests_ok
     meta["confirmed"]["test_summary"] = out.strip().split("\n")
-    rc_with, out_with = sh("cargo run --offline --release --example %s --features timestamps_96 2>&1 | tail -15" % demo + "; exit ${PIPESTATUS[0]}", cwd=wt)
-    rc_with, out_with = sh("bash -c 'cargo run --offline --release --example %s --features timestamps_96 > /tmp/_demo.out 2>&1; echo rc=$?; tail -8 /tmp/_demo.out'" % demo, cwd=wt)
+    shdemo = os.path.exists(os.path.join(wt, demo + ".sh"))
+    run_demo = ("bash ./%s.sh" % demo) if shdemo else ("cargo run --offline --release --example %s --features timestamps_96" % demo)
+    rc_with, out_with = sh("bash -c '%s > /tmp/_demo.out 2>&1; echo rc=$?; tail -8 /tmp/_demo.out'" % run_demo, cwd=wt)
     sh("git stash push -- q_compress/src q_compress_cli/src", cwd=wt)
-    rc_wo, out_wo = sh("bash -c 'cargo run --offline --release --example %s --features timestamps_96 > /tmp/_demo.out 2>&1; echo rc=$?; tail -4 /tmp/_demo.out'" % demo, cwd=wt)
+    rc_wo, out_wo = sh("bash -c '%s > /tmp/_demo.out 2>&1; echo rc=$?; tail -4 /tmp/_demo.out'" % run_demo, cwd=wt)
     sh("git stash pop", cwd=wt)
     meta["confirmed"]["demo_with_change"] = out_with.strip().split("\n")[:10]
     meta["confirmed"]["demo_without_change"] = out_wo.strip().split("\n")[:6]
@@ -44,7 +45,10 @@ def main():
     dst = os.path.join(V, "seeded", name)
     os.makedirs(dst, exist_ok=True)
     shutil.copy(patch, os.path.join(dst, "patch.diff"))
-    shutil.copy(os.path.join(wt, "q_compress", "examples", demo + ".rs"), os.path.join(dst, demo + ".rs"))
+    if shdemo:
+        shutil.copy(os.path.join(wt, demo + ".sh"), os.path.join(dst, demo + ".sh"))
+    else:
+        shutil.copy(os.path.join(wt, "q_compress", "examples", demo + ".rs"), os.path.join(dst, demo + ".rs"))
     if os.path.exists(os.path.join(wt, "NOTES.md")):
         shutil.copy(os.path.join(wt, "NOTES.md"), os.path.join(dst, "NOTES.md"))
         meta["needs_to_manifest"] = open(os.path.join(wt, "NOTES.md")).read()[:1500]
